@@ -139,7 +139,7 @@ pub fn generate(seed: u64, idx: u64) -> Scenario {
             (0..=3, 0..=7) | (4..=9, 0..=3) => {
                 // structural edits, singly or in batches
                 let mut cur = text.clone();
-                let k = *rng.pick(&[1usize, 1, 1, 2, 3]);
+                let k = batch_size(&mut rng, &[1usize, 1, 1, 2, 3]);
                 let mut edits = vec![];
                 for _ in 0..k {
                     let (r, repl) = gen::structural_edit(&mut rng, &cur);
@@ -166,7 +166,7 @@ pub fn generate(seed: u64, idx: u64) -> Scenario {
             }
             _ => {
                 let mut cur = text.clone();
-                let k = *rng.pick(&[1usize, 1, 1, 2, 5]);
+                let k = batch_size(&mut rng, &[1usize, 1, 1, 2, 5]);
                 let mut edits = vec![];
                 for _ in 0..k {
                     let small = rng.chance(600);
